@@ -5,7 +5,7 @@
 export GOFLAGS=-mod=mod GOPROXY=off GOSUMDB=off GOTOOLCHAIN=local
 O=$1; W=$2; T=$3; D=$4; R=$5; shift 5
 cd $W && git checkout -q -- . && git clean -fdq
-cp $O/*_test.go $W/$D/ 2>/dev/null
+mkdir -p $W/$D; cp $O/*_test.go $W/$D/ 2>/dev/null
 echo "--- demo without change (must pass)"; (cd $W/$D && go test -vet=off -count=1 -run "$R" . 2>&1 | tail -3)
 git -C $W apply $O/patch.diff || { echo "PATCH DOES NOT APPLY"; exit 9; }
 echo "--- build + existing tests with change (must pass)"
